@@ -423,6 +423,16 @@ def check_C06(A: Analysis, tier):
                     o = sides[1 - i]
                     orn, _ = root_name(o)
                     cmps.append((n, tuple(c for c in chain), orn))
+    # a verdict taken through a function call instead of ==/!= (it may not be total)
+    for n in ast.walk(vf.node):
+        if isinstance(n, ast.Call) and len(n.args) >= 2 and not norm(n.func).startswith(("self.", "logging.")):
+            roots = [root_name(a)[0] for a in n.args]
+            if "checksum" in roots and any(r and r.startswith("hex_digest") for r in roots):
+                ra.inst(f"_verify_object_information:{n.lineno} `{norm(n)}`")
+                ra.ob()
+                ra.fail(vf, n, f"the verdict compares the caller's checksum with the digest through `{norm(n.func)}(...)` rather than ==/!=: "
+                        "unlike string equality such a call can raise for some checksum strings (e.g. non-ASCII), so an invalid checksum "
+                        "escapes as an undocumented error before the temp file is removed / the object deleted", A.p.loc(vf, n))
     for n, chain, orn in cmps:
         ra.inst(f"_verify_object_information:{n.lineno} `{norm(n)}`")
         ra.ob()
@@ -912,7 +922,7 @@ def check_C17(A: Analysis, tier):
             rd.inst(f"{e} [{m}]: {len(it.events)} primitive events, kinds {sorted({ev.kind for ev in it.events})}")
             for ev in it.events:
                 rd.ob()
-                if ev.kind in MUT or ev.kind in ("MKDIR", "CHMOD", "FLOCK"):
+                if ev.kind in MUT or ev.kind in ("MKDIR", "CHMOD"):
                     rd.fail(site_func(ev), site_text(ev), f"read-only call {e} reaches {ev.kind} ({ev.prim})", site_loc(A, ev), {"entry": e})
             for l in it.lock_events:
                 rd.ob()
